@@ -13,7 +13,9 @@
 EXTENDS Integers, Sequences, FiniteSets, TLC, Json
 
 Names   == {"A", "B"}
-Urls    == {"mem", "d1", "d2"}
+Urls    == {"mem", "mp", "d1", "d2"}
+MemUrls == {"mem", "mp"}   \* in memory: the plain URL, and a memory URL that carries a path (the directory of the OTHER name's
+                           \* bucket at d1: nothing of an in-memory bucket may ever touch the disk)
 Handles == {"h1", "h2", "h3", "h4"}
 FeedIds == {"f1", "f2"}
 Colls   == {"c0", "c1", "c2", "c3"}    \* c1 can be dropped and re-created; c2 and c3 are created on first use and never
@@ -44,7 +46,7 @@ ExpectOpen(S, n, u, mode) ==
     IF Registered(S, n)
     THEN IF mode = "CreateNew" THEN (IF u # S.reg[n].url THEN "refused" ELSE "exists")   \* both reasons apply: either refusal
          ELSE IF u # S.reg[n].url THEN "otherurl" ELSE "ok"
-    ELSE IF u = "mem" THEN (IF mode = "ReOpenExisting" THEN "notexist" ELSE "ok")
+    ELSE IF u \in MemUrls THEN (IF mode = "ReOpenExisting" THEN "notexist" ELSE "ok")
          ELSE IF S.store[n][u].exists THEN (IF mode = "CreateNew" THEN "exists" ELSE "ok")
          ELSE (IF mode = "ReOpenExisting" THEN "notexist" ELSE IF mode = "CreateNew" /\ S.store[n][u].dir THEN "exists" ELSE "ok")
 
@@ -89,7 +91,7 @@ Apply(S, a) ==
       [] a.kind = "Close" ->
            IF hd.st # "open" THEN S      \* closing a closed (or dead) handle again changes nothing
            ELSE LET cnt == S.reg[hd.n].cnt - 1
-                    last == cnt = 0 /\ hd.u # "mem" IN
+                    last == cnt = 0 /\ hd.u \notin MemUrls IN
                 [S EXCEPT !.hs[a.h].st = "closed",
                           !.reg[hd.n] = IF last THEN [url |-> "", cnt |-> 0, ep |-> 0] ELSE [url |-> S.reg[hd.n].url, cnt |-> cnt, ep |-> S.reg[hd.n].ep],
                           !.fd = IF last THEN EndFeedsOf(S, hd.n) ELSE S.fd]
@@ -107,7 +109,7 @@ Apply(S, a) ==
                                                     ELSE S.hs[h]],
                           !.fd = EndFeedsOf(S, hd.n)]
            ELSE IF Registered(S, hd.n) THEN S
-           ELSE [S EXCEPT !.store[hd.n][hd.u] = IF hd.u = "mem" THEN @ ELSE NoStore,
+           ELSE [S EXCEPT !.store[hd.n][hd.u] = IF hd.u \in MemUrls THEN @ ELSE NoStore,
                           !.hs[a.h].st = IF hd.st = "open" THEN "closed" ELSE hd.st]
       [] a.kind = "Write" ->
            IF hd.st # "open" \/ (hd.stale /\ a.c = "c1" /\ ~a.force) THEN S
@@ -148,11 +150,15 @@ Enabled(S) ==
     {Act("Open", h, n, u, m, "-", "-", "-") : h \in {x \in Handles : S.hs[x].st = "free"}, n \in Names, u \in Urls, m \in Modes}
     \cup {Act("Close", h, "-", "-", "-", "-", "-", "-") : h \in {x \in Handles : S.hs[x].st \in {"open", "closed", "dead"}}}
     \cup {Act("CloseAndDelete", h, "-", "-", "-", "-", "-", "-") : h \in {x \in Handles : S.hs[x].st \in {"open", "closed", "dead"}}}
-    \cup {Act("Write", h, "-", "-", "-", c, "-", "-") : h \in {x \in Handles : S.hs[x].st \in {"open", "closed"}}, c \in Colls}
+    \cup {Act("Write", h, "-", "-", "-", c, "-", "-") : h \in {x \in Handles : S.hs[x].st \in {"open", "closed", "dead"}}, c \in Colls}
     \cup {Act("Drop", h, "-", "-", "-", "c1", "-", "-") : h \in {x \in Handles : S.hs[x].st = "open"}}
     \cup {Act("PutDDoc", h, "-", "-", "-", "c1", "-", "-") : h \in {x \in Handles : S.hs[x].st = "open"}}
     \cup {Act("StartFeed", h, "-", "-", "-", c, f, fk) : h \in {x \in Handles : S.hs[x].st \in {"open", "closed"}},
               c \in Colls, f \in {x \in FeedIds : S.fd[x].st = "none"}, fk \in {"live", "dump", "dumpnb", "multi", "mdump", "bucket", "ckpt"}}
+    \* through a handle whose bucket has been deleted through another one: a feed that has to read the store first cannot
+    \* start (what a feed without a backfill does there is not specified, so none is started)
+    \cup {Act("StartFeed", h, "-", "-", "-", c, f, fk) : h \in {x \in Handles : S.hs[x].st = "dead"},
+              c \in Colls, f \in {x \in FeedIds : S.fd[x].st = "none"}, fk \in {"dump", "mdump", "ckpt"}}
     \cup {Act("StopFeed", "h1", "-", "-", "-", "-", f, "-") : f \in {x \in FeedIds : S.fd[x].st = "running"}}
 
 =============================================================================
